@@ -22,7 +22,6 @@ import (
 )
 
 const lpPacketOverhead = 1 + 3
-const pitTokenOverhead = 1 + 1 + 6
 const congestionMarkOverhead = 3 + 1 + 8
 
 const (
@@ -113,6 +112,7 @@ func (l *NDNLPLinkService) SetOptions(options NDNLPLinkServiceOptions) {
 
 func (l *NDNLPLinkService) computeHeaderOverhead() {
 	l.headerOverhead = lpPacketOverhead // LpPacket (Type + Length of up to 2^16)
+	l.headerOverhead += 1 + 3           // Fragment (Type + Length of up to 2^16)
 
 	if l.options.IsFragmentationEnabled {
 		l.headerOverhead += 1 + 1 + 8 // Sequence
@@ -186,10 +186,12 @@ func sendPacket(l *NDNLPLinkService, out dispatch.OutPkt) {
 	now := time.Now()
 
 	effectiveMtu := l.transport.MTU() - l.headerOverhead
-	if pkt.PitToken != nil {
-		effectiveMtu -= pitTokenOverhead
+	if len(out.PitToken) > 0 {
+		// the frames carry out.PitToken (not the token the packet arrived with)
+		effectiveMtu -= 1 + 1 + len(out.PitToken)
 	}
-	if pkt.CongestionMark != nil {
+	if pkt.CongestionMark != nil || congestionMarking {
+		// mark from upstream, or possibly added below
 		effectiveMtu -= congestionMarkOverhead
 	}
 
